@@ -603,6 +603,20 @@ class Exec:
                 pass
             elif isinstance(s, (ast.Import, ast.ImportFrom)):
                 pass
+            elif isinstance(s, ast.Assign) and isinstance(s.value, ast.IfExp) and self.ifexp_needs_fork(s.value, env, path):
+                # conditional expression choosing between non-numeric values under a symbolic test: fork like an if statement
+                c = self.ev(s.value.test, env, path)
+                for cond, sub in ((c, s.value.body), (Not(c), s.value.orelse)):
+                    if not self.feasible(path, cond):
+                        continue
+                    p2 = path.copy()
+                    p2.add(cond, True)
+                    e2 = self.fork(env)
+                    v = self.ev(sub, e2, p2)
+                    for tgt in s.targets:
+                        self.assign(tgt, v, e2, p2)
+                    self.block(rest, e2, p2, outs, k)
+                return
             elif isinstance(s, ast.Assign):
                 forked = self.fork_call(s.value, env, path) if isinstance(s.value, ast.Call) else None
                 if forked is not None and len(forked) == 1:
@@ -1054,27 +1068,53 @@ class Exec:
         return lift(lambda *us: b_and(*us), *parts, kind="bool")
 
     def ev_BoolOp(self, e, env, path):
-        # short-circuit semantics on concrete values; symbolic -> And/Or
+        """python semantics: `a or b` / `a and b` return one of the operands; short-circuit on concrete values"""
         isand = isinstance(e.op, ast.And)
-        acc = []
+
+        def truth(v):
+            if isinstance(v, T) and v.ndim == 0:
+                v = v.elem()
+            if isinstance(v, bool):
+                return v
+            if v is None or isinstance(v, (list, tuple, dict, set, str)):
+                return bool(v)
+            if isinstance(v, (int, float)):
+                return v != 0
+            if isinstance(v, (Obj, EnumVal)):
+                return True
+            if isinstance(v, tuple):
+                return True
+            if is_sym(v):
+                return v if is_bool(v) else (v != 0)
+            if isinstance(v, T):
+                raise Unsupported("truth value of tensor in boolean operator")
+            return True
+        vals = []
         for sub in e.values:
             v = self.ev(sub, env, path)
             if isinstance(v, T) and v.ndim == 0:
                 v = v.elem()
-            if isinstance(v, (list, tuple, dict, set, str)) or v is None:
-                v = bool(v)
-            if isinstance(v, bool):
-                if isand and not v:
-                    return False if not acc else b_and(*acc, False)
-                if not isand and v:
-                    return True if not acc else b_or(*acc, True)
+            t_ = truth(v)
+            if is_sym(t_):
+                # decided by the path condition?
+                if not self.feasible(path, Not(t_)):
+                    t_ = True
+                elif not self.feasible(path, t_):
+                    t_ = False
+            vals.append((v, t_))
+            if isinstance(t_, bool) and (t_ != isand):
+                break            # short circuit: this operand decides
+        res = vals[-1][0]
+        for v, t_ in reversed(vals[:-1]):
+            if isinstance(t_, bool):
+                res = res if (t_ == isand) else v
                 continue
-            if isinstance(v, T):
-                raise Unsupported("boolop on tensor")
-            acc.append(v)
-        if not acc:
-            return isand
-        return b_and(*acc) if isand else b_or(*acc)
+            allbool = boollike(v) and boollike(res)
+            if allbool:
+                res = b_and(toB(v), toB(res)) if isand else b_or(toB(v), toB(res))
+            else:
+                res = self.merge_vals(t_, res, v) if isand else self.merge_vals(t_, v, res)
+        return res
 
     def ev_IfExp(self, e, env, path):
         c = self.ev(e.test, env, path)
@@ -1178,6 +1218,10 @@ class Exec:
         return self.getattr(b, e.attr, path, dotted)
 
     def getattr(self, b, attr, path, dotted=""):
+        if isinstance(b, Obj) and b.cls == "Generator":
+            if "rng." + attr in self.prims:
+                return ("prim", "rng." + attr)
+            raise Unsupported(f"Generator.{attr}")
         if isinstance(b, Obj):
             if attr in b.attrs:
                 return b.attrs[attr]
@@ -1297,6 +1341,15 @@ class Exec:
                 kw[k_.arg] = self.ev(k_.value, env, path)
         self.cur_call = e
         return self.apply(f, args, kw, path, e)
+
+    def ifexp_needs_fork(self, e, env, path):
+        try:
+            c = self.ev(e.test, env, path)
+        except Unsupported:
+            return False
+        if not is_sym(c):
+            return False
+        return any(isinstance(x, ast.Constant) and isinstance(x.value, str) for x in (e.body, e.orelse))
 
     def fork_call(self, e, env, path):
         """statement-level call of an undecorated repository method without a contract: if it returns on more than one
